@@ -317,8 +317,10 @@ def from_Bar(bar, width=40, tuning=None, collapse=True):
         result[i] += (width - l) * "-" + "|"
     result.reverse()
 
-    # Mark quarter notes
-    pad = " " * int(((1.0 / bar.meter[1]) * qsize) * 4 - 1)
+    # Mark quarter notes (a bar in free time, meter (0, 0), has no beats)
+    pad = ""
+    if bar.meter[1] != 0:
+        pad = " " * int(((1.0 / bar.meter[1]) * qsize) * 4 - 1)
     r = " " * (result[0].find("||") + 2 + max(2, qsize // 2)) + ("*" + pad) * bar.meter[0]
     r += " " * (len(result[0]) - len(r))
     if not collapse:
